@@ -9,6 +9,11 @@ TECH = "deterministic simulation: seeded schedule + fault search over the real l
 
 CHECKS = {
  "C03": ("SIM-SYS", "seeded search over schedules (random walk and PCT), queue/backend configurations, thread start/exit histories and stall faults with the real frontend, queues and backend thread; per-thread exactly-once / in-order / intact oracle on recording sinks; sampling, not proof", SIMSYS_NOTE, TECH),
+ "C08": ("SIM-SYS", "seeded search over schedules, dropping queue configurations, bursts sized against the capacity (incl. never-fitting sizes), backend stalls, control requests while the queue is full and threads that exit after dropping; oracle relates log-call return values x recording sink x parsed notifier drop counts per thread; control-request liveness judged in the fair phase; sampling, not proof", SIMSYS_NOTE, TECH),
+ "C09": ("SIM-Q+SIM-SYS", "two levels: (SIM-Q) the real queue classes driven to a quiescent state (consumer drained and idle exactly as the backend does) followed by a request <= capacity, where 'still refused' is an exact verdict, under the weak-memory scheduler; (SIM-SYS) end-to-end histories followed by a statement of any encoded size up to the capacity, liveness judged in the fair phase; sampling, not proof", SIMSYS_NOTE, TECH),
+ "C10": ("SIM-SYS", "seeded search over fault plans attached to statements (sink write/flush throws, fwrite ENOSPC on a real FileSink, run-time format mismatch, user formatter throwing std / non-std types, LOG_BACKTRACE without init) x schedules; neighbours-intact exactly-once oracle per sink, file content oracle, notifier count, backend liveness in the fair phase; sampling, not proof", SIMSYS_NOTE, TECH),
+ "C18": ("SIM-SYS", "seeded search over store/flush/re-init histories (capacity 1-8, 0..3*capacity+3 stores per cycle, explicit and flush-level triggered flushes, several cycles incl. after a wrapped flush) x schedules; sink sequence compared with an executable reference ring model; sampling, not proof", SIMSYS_NOTE + "; one writer thread per backtrace logger, re-initialisation only with an empty ring", TECH),
+ "C20": ("SIM-SYS", "seeded search over thread start/exit histories (waves of 1-512 real short-lived threads, sizes biased to k*256+-1, backend stalled or busy during the wave), shrink requests after growth; context count through the public ThreadContextManager API at a quiescent point in the fair phase + exactly-once delivery oracle; sampling, not proof", SIMSYS_NOTE, TECH),
  "C06": ("SIM-SYS", "seeded search over schedules, all four queue types, first-time threads next to backend stalls, recording and real file sinks; the oracle is evaluated in the very scheduler step in which flush_log() returns (sink records, flush marks, file read back through a fresh descriptor); liveness judged only in the fair phase; sampling, not proof", SIMSYS_NOTE + "; cross-thread clause with a TSC logger involved demanded only beyond RdtscClock's 3.4 us resync window", TECH),
 }
 
